@@ -151,3 +151,139 @@ def bt(ctx, flavours):
         okr = len(revs) == 1 and strip_payload(pv.of_operand(revs[0][1]['args'][0])) == path_term and not cfg.path_exists(revs[0][0], nbi) and cfg.path_exists(nbi, revs[0][0])
         O('BT-rev', 'path reversed once after the scan (root first)', okr, 'ok' if okr else '%d reverse calls / misplaced' % len(revs))
     return out
+
+
+def path_api(ctx, flavours):
+    """PATH: the Path accessors present the edge list faithfully: edge iterator = edges[i]; node iterator = source of edges[0],
+    then target of edges[i-1]; last_node = target of the last edge; to_vec_* collect those"""
+    F = ctx.F
+    out = []
+    for fl in flavours:
+        pp = fl + '::node::algo::path::'
+        EDGES = ('f', ('f', P1_, '0'), '0')   # self.path.edges
+        POS = ('f', P1_, '1')
+
+        def O(q, inst, ok, why):
+            b = F.bodies.get(q)
+            out.append(Obl('PATH', q, b['span'] if b else '-', inst, ok, why))
+        # edge iterator
+        q = '<%sPathEdgeIterator as std::iter::Iterator>::next' % pp
+        b = F.bodies.get(q)
+        if b is None:
+            O(q, 'present', False, 'anchor missing')
+        else:
+            pv = F.prov(b)
+            gets = [(bi, t) for bi, t in calls_in(b) if callee_name(t).endswith(']::get')]
+            why = []
+            if len(gets) != 1 or deep_unwrap(pv.of_operand(gets[0][1]['args'][0])) != EDGES or deep_unwrap(pv.of_operand(gets[0][1]['args'][1])) != POS:
+                why.append('does not read edges[position]')
+            else:
+                g = deep_unwrap(('call', callee_name(gets[0][1]), tuple(pv.of_operand(a) for a in gets[0][1]['args']), gets[0][0]))
+                somes = [deep_unwrap(pv.of_operand(s['rv']['ops'][0])) for bb in b['blocks'] if not bb['cleanup'] for s in bb['stmts'] if s['k'] == 'assign' and s['dst']['l'] == 0 and s['rv']['k'] == 'aggr' and s['rv']['ak'].endswith('Option::Some')]
+                exp = ('aggr', 'adt:%s::node::Edge::Edge' % fl, (('f', g, '0'), ('f', g, '1'), ('f', g, '2')))
+                if somes != [exp] and somes != [g]:
+                    why.append('yields %s, expected a copy of edges[position]' % (pretty(somes[0]) if somes else 'nothing'))
+            why += _pos_increments(F, b, 1)
+            O(q, 'edge iterator yields edges[position] and advances by one', not why, '; '.join(why) if why else 'ok')
+        # node iterator
+        q = '<%sPathNodeIterator as std::iter::Iterator>::next' % pp
+        b = F.bodies.get(q)
+        if b is None:
+            O(q, 'present', False, 'anchor missing')
+        else:
+            pv = F.prov(b)
+            gets = [(bi, t) for bi, t in calls_in(b) if callee_name(t).endswith(']::get')]
+            why = []
+            sig = []
+            for bi, t in gets:
+                idx = deep_unwrap(pv.of_operand(t['args'][1]))
+                g = deep_unwrap(('call', callee_name(t), tuple(pv.of_operand(a) for a in t['args']), bi))
+                ys = []
+                for bb_i, bb in enumerate(b['blocks']):
+                    if bb['cleanup']:
+                        continue
+                    for s in bb['stmts']:
+                        if s['k'] == 'assign' and s['dst']['l'] == 0 and s['rv']['k'] == 'aggr' and s['rv']['ak'].endswith('Option::Some'):
+                            y = deep_unwrap(pv.of_operand(s['rv']['ops'][0]))
+                            if isinstance(y, tuple) and y[0] == 'f' and y[1] == g:
+                                ys.append(y[2])
+                sub = isinstance(idx, tuple) and ((idx[0] == 'f' and isinstance(idx[1], tuple) and idx[1][0] == 'binop' and idx[1][1].startswith('Sub') and deep_unwrap(idx[1][2][0]) == POS and idx[1][2][1] == ('const', '1_usize')) or
+                                                  (idx[0] == 'binop' and idx[1].startswith('Sub') and deep_unwrap(idx[2][0]) == POS and idx[2][1] == ('const', '1_usize')))
+                sig.append(('pos-1' if sub else ('pos' if idx == POS else pretty(idx)), tuple(ys)))
+            if sorted(sig) != sorted([('pos', ('0',)), ('pos-1', ('1',))]):
+                why.append('reads %s; expected source of edges[position] at position 0 and target of edges[position-1] afterwards' % sig)
+            else:
+                # the `pos` read is confined to position == 0
+                eqs = [bi for bi, bb in enumerate(b['blocks']) if not bb['cleanup'] and bb['term']['k'] == 'switch' and
+                       isinstance(pv.of_operand(bb['term']['op']), tuple) and pv.of_operand(bb['term']['op'])[0] == 'binop' and pv.of_operand(bb['term']['op'])[1] == 'Eq' and
+                       ('const', '0_usize') in pv.of_operand(bb['term']['op'])[2]]
+                if len(eqs) != 1:
+                    why.append('no test position == 0')
+            why += _pos_increments(F, b, 2)
+            O(q, 'node iterator yields the root, then the target of each edge', not why, '; '.join(why) if why else 'ok')
+        # last_node / last_edge / to_vec_*
+        for name, exp_proj in (('last_node', '1'), ('first_edge', None), ('last_edge', None)):
+            q = pp + 'Path::' + name
+            b = F.bodies.get(q)
+            if b is None:
+                continue
+            t = deep_unwrap(F.prov(b).of_local(0))
+            want = 'last' if name.startswith('last') else 'first'
+            cs = term_calls(t)
+            ok = any(c[1].endswith(']::' + want) and deep_unwrap(c[2][0]) == ('f', P1_, '0') for c in cs)
+            why = 'returns ' + pretty(t)
+            if ok and exp_proj:
+                clos = [z for c in cs for z in c[2] if isinstance(z, tuple) and z and z[0] == 'aggr' and z[1].startswith('closure:')]
+                cb = F.bodies.get(clos[0][1][len('closure:'):]) if len(clos) == 1 else None
+                ok = cb is not None and deep_unwrap(F.prov(cb).of_local(0)) == ('f', P2_, exp_proj)
+            O(q, '%s = %s(edges)%s' % (name, want, ' target' if exp_proj else ''), ok, why)
+        q = pp + 'Path::to_vec_nodes'
+        b = F.bodies.get(q)
+        if b is not None:
+            t = deep_unwrap(F.prov(b).of_local(0))
+            ok = isinstance(t, tuple) and t[0] == 'call' and t[1].endswith('Iterator::collect') and isinstance(t[2][0], tuple) and t[2][0][0] == 'call' and t[2][0][1] == pp + 'Path::iter_nodes' and deep_unwrap(t[2][0][2][0]) == P1_
+            O(q, 'to_vec_nodes = iter_nodes().collect()', ok, 'returns ' + pretty(t))
+        for name, it in (('iter_nodes', 'PathNodeIterator'), ('iter_edges', 'PathEdgeIterator')):
+            q = pp + 'Path::' + name
+            b = F.bodies.get(q)
+            if b is not None:
+                t = F.prov(b).of_local(0)
+                ok = isinstance(t, tuple) and t[0] == 'aggr' and t[1] == 'adt:%s%s::%s' % (pp, it, it) and deep_unwrap(t[2][0]) == P1_ and t[2][1] == ('const', '0_usize')
+                O(q, '%s starts at position 0 of this path' % name, ok, 'returns ' + pretty(t))
+    return out
+
+
+P2_ = ('param', 2)
+
+
+def _pos_increments(F, b, expected):
+    """position is stored `expected` times, each time position + 1, each behind a successful read"""
+    pv, cfg = F.prov(b), F.cfg(b)
+    why = []
+    stores = []
+    for bi, bb in enumerate(b['blocks']):
+        if bb['cleanup'] or bi not in cfg.reach:
+            continue
+        for s in bb['stmts']:
+            if s['k'] == 'assign' and s['dst']['p'] and s['dst']['p'][-1].startswith('.1:') and strip_payload(pv.of_local(s['dst']['l'])) == P1_:
+                stores.append((bi, s))
+    if len(stores) != expected:
+        why.append('%d stores to position (expected %d)' % (len(stores), expected))
+    for bi, s in stores:
+        term = pv.of_operand(s['rv']['ops'][0]) if s['rv'].get('ops') else None
+        t = term[1] if isinstance(term, tuple) and term[0] == 'f' else term
+        if not (isinstance(t, tuple) and t[0] == 'binop' and t[1].startswith('Add') and ('const', '1_usize') in t[2] and ('f', P1_, '1') in [deep_unwrap(z) for z in t[2]]):
+            why.append('position store is not position + 1')
+        # behind a Some edge of a get()
+        ok = False
+        for sb in sorted(cfg.reach):
+            tt = b['blocks'][sb]['term']
+            if tt['k'] == 'switch':
+                term2 = pv.of_operand(tt['op'])
+                if isinstance(term2, tuple) and term2[0] == 'discr' and isinstance(term2[1], tuple) and term2[1][0] == 'call' and term2[1][1].endswith(']::get'):
+                    ones = [tg for v, tg in tt['targets'] if v == 1]
+                    if ones and cfg.edge_dominates(sb, ones[0], bi):
+                        ok = True
+        if not ok:
+            why.append('position advances without a successful read')
+    return why
